@@ -242,6 +242,7 @@ struct ReluctantRepeatIterator<'a> {
     max: usize,
     counter: usize,
     position: Option<usize>,
+    started: bool,
 }
 
 impl<'a> ReluctantRepeatIterator<'a> {
@@ -259,6 +260,7 @@ impl<'a> ReluctantRepeatIterator<'a> {
             max,
             counter: 0,
             position: Some(position),
+            started: false,
         }
     }
 }
@@ -267,20 +269,26 @@ impl Iterator for ReluctantRepeatIterator<'_> {
     type Item = usize;
 
     fn next(&mut self) -> Option<Self::Item> {
+        if !self.started {
+            self.started = true;
+            if self.min == 0 {
+                // a reluctant repeat tries zero occurrences first
+                return self.position;
+            }
+        }
         loop {
-            if let Some(position) = self.position {
-                let mut it = self.operation.matches_iter(self.matcher, position);
-                if let Some(position) = it.next() {
-                    self.counter += 1;
-                    if self.counter > self.max {
-                        self.position = None;
-                    } else {
-                        self.position = Some(position);
-                    }
-                }
-            } else if self.min == 0 && self.counter == 0 {
+            let position = self.position?;
+            let mut it = self.operation.matches_iter(self.matcher, position);
+            if let Some(position) = it.next() {
                 self.counter += 1;
+                if self.counter > self.max {
+                    self.position = None;
+                } else {
+                    self.position = Some(position);
+                }
             } else {
+                // the repeated term does not match here, so there are no
+                // further occurrences to offer
                 self.position = None;
             }
             if self.counter >= self.min || self.position.is_none() {
